@@ -1,6 +1,7 @@
 package main
 
 import (
+	"sync"
 	"fmt"
 	"go/types"
 	"math/big"
@@ -36,6 +37,24 @@ func sliceBytes(in *Interp, v Val) ([]byte, bool) {
 
 func ruleHeaderBytes(p *Prog, r *Report) {
 	const rule = "R26-header"
+	if p.Func("ast", "getHeaderBytes") == nil {
+		// the header routine is not to be found under its name: its results
+		// are read off the encoders, for element counts on every cell the
+		// encoders can reach (an item beyond the limit cannot be built)
+		for _, f := range e5Formats {
+			key := fmt.Sprintf("%s:ast.getHeaderBytes:%s", rule, f.Key)
+			d, decided, good := headerThroughToBytes(p, f)
+			switch {
+			case !decided:
+				r.unk(rule, key, "", "no function getHeaderBytes, and the header could not be read off "+f.Node+".ToBytes")
+			case good:
+				r.ok(rule, key, "", d)
+			default:
+				r.bad(rule, key, "", d)
+			}
+		}
+		return
+	}
 	fn := p.MustFunc(r, "ast", "getHeaderBytes")
 	if fn == nil {
 		return
@@ -170,6 +189,16 @@ func ruleEncodeTables(p *Prog, r *Report) {
 			r.ok(rule, key+":empty", pos, fmt.Sprintf("an empty %s item encodes to % X", f.SML, got))
 		}
 		// (b) the header is requested for the element count
+		if hb == nil {
+			if d, decided, good := headerThroughToBytes(p, f); decided {
+				if good {
+					r.ok(rule, key+":call", pos, d)
+				} else {
+					r.bad(rule, key+":call", pos, d)
+				}
+				continue
+			}
+		}
 		in2 := NewInterp(p)
 		in2.Symbolic = true
 		nodeEnv(in2, f, -1, 0)
@@ -367,3 +396,91 @@ func inLoop(b *ssa.BasicBlock) bool {
 
 var _ = regexp.MustCompile
 var _ = sort.Strings
+
+var headerViaMemo sync.Map // *Prog + format key -> [3]interface{}
+
+// headerThroughToBytes: the node's encoder evaluated for element counts on
+// both sides of every length-field boundary (byte lengths 255|256 and
+// 65 535|65 536) and a few small ones, the elements unknown: the result must
+// start with the E5 header of the format for count x width bytes, and its
+// length, where known, must be header + payload.
+func headerThroughToBytes(p *Prog, f itemFormat) (detail string, decided, good bool) {
+	type memoKey struct {
+		p *Prog
+		k string
+	}
+	if v, ok := headerViaMemo.Load(memoKey{p, f.Key}); ok {
+		m := v.([3]interface{})
+		return m[0].(string), m[1].(bool), m[2].(bool)
+	}
+	defer func() { headerViaMemo.Store(memoKey{p, f.Key}, [3]interface{}{detail, decided, good}) }()
+	fn := p.Func("ast", "(*"+f.Node+").ToBytes")
+	if fn == nil {
+		return "", false, false
+	}
+	w := int64(f.Width)
+	seen := map[int64]bool{}
+	var ns []int64
+	add := func(n int64) {
+		if n >= 0 && !seen[n] {
+			seen[n] = true
+			ns = append(ns, n)
+		}
+	}
+	for _, n := range []int64{0, 1, 2, 3} {
+		add(n)
+	}
+	for _, c := range []int64{255, 256, 65535, 65536} {
+		add(c / w)
+		add((c + w - 1) / w)
+		add(c/w + 1)
+	}
+	add(70000 / w)
+	var bad []string
+	for _, n := range ns {
+		in := NewInterp(p)
+		nodeEnv(in, f, n, 0)
+		in.MapKeys["p0.variables"] = nil
+		if f.Node == "ASCIINode" {
+			in.PathBind["p0.value"] = strVal(strings.Repeat("x", int(n)))
+		}
+		out := in.Run(fn, defaultArgs(fn), nil)
+		if out.Frame == nil || len(in.Stuck) > 0 {
+			return "", false, false
+		}
+		want, ok := e5Header(f.Code, n*w)
+		if !ok {
+			continue
+		}
+		nFull := 0
+		for _, rv := range out.Frame.ReturnVals() {
+			if len(rv) != 1 || rv[0].K != KSlice {
+				return "", false, false
+			}
+			if rv[0].Len == 0 && n > 0 && f.Node == "ListNode" {
+				continue // a child that does not encode: the list does not either
+			}
+			nFull++
+			var got []byte
+			for i := range want {
+				v, ok := in.HeapAt(fmt.Sprintf("%s[%d]", rv[0].S, rv[0].Off+i))
+				if !ok || v.K != KInt || !v.I.IsInt64() {
+					return "", false, false
+				}
+				got = append(got, byte(v.I.Int64()))
+			}
+			if string(got) != string(want) {
+				bad = append(bad, fmt.Sprintf("%d elements: the encoding starts with % X, E5 requires the header % X", n, got, want))
+			} else if f.Node != "ListNode" && rv[0].Len >= 0 && int64(rv[0].Len) != int64(len(want))+n*w {
+				bad = append(bad, fmt.Sprintf("%d elements: the encoding has %d bytes, header and payload make %d", n, rv[0].Len, int64(len(want))+n*w))
+			}
+		}
+		if nFull == 0 {
+			return "", false, false
+		}
+	}
+	if len(bad) > 0 {
+		return strings.Join(firstN(bad, 3), "; "), true, false
+	}
+	return fmt.Sprintf("the encoder evaluated for %d element counts (0-3, and both sides of the byte lengths 255|256 and 65 535|65 536) with unknown elements: the result starts with the E5 header of %s for count x %d bytes", len(ns), f.SML, w), true, true
+}
